@@ -710,8 +710,8 @@ def describe_td(env, td):
 
 # ---------------------------------------------------------------------- oracle (implementation only)
 def expected_slot_values(case):
-    """(mid, name) -> tid the innermost enclosing block supplies (first visit wins inside one to_module call, the
-    way tensordict's memo resolves a shared submodule); None when two names supply different tensors for one slot."""
+    """(mid, name) -> tid the innermost enclosing block supplies, under whichever qualified name of the slot;
+    ambiguous when two names of one slot supply different tensors."""
     spec = case["spec"]
     slots, ambiguous = {}, False
     for blk in case["blocks"]:
@@ -726,11 +726,8 @@ def expected_slot_values(case):
             for n, x in ents:
                 if isinstance(x, int):
                     if (mid, n) in local and local[(mid, n)] != x:
-                        ambiguous = True
-                    if first:
-                        local[(mid, n)] = x
-                    elif local.get((mid, n)) != x:
-                        ambiguous = True
+                        ambiguous = True  # two names of one slot supply different tensors: no verdict
+                    local.setdefault((mid, n), x)  # supplied under any of the slot's names (functional_call's reading)
                 elif subs.get(n) is not None and m["ty"] != "tdp":
                     walk(subs[n], x)
         walk(blk["target"], blk["p"])
@@ -896,6 +893,21 @@ def tied_inplace(case, i):
     return any(c > 1 for c in count.values())
 
 
+def td_within_structure(spec, mid, ents):
+    m = spec["mods"][mid]
+    if m["ty"] == "tdp":
+        return True
+    leaves = {n for n, t in m["params"] if t is not None} | {n for n, t, _ in m["bufs"] if t is not None}
+    subs = {n: c for n, c in m["subs"] if c is not None}
+    for n, x in ents:
+        if isinstance(x, int):
+            if n not in leaves:
+                return False
+        elif n not in subs or not td_within_structure(spec, subs[n], x):
+            return False
+    return True
+
+
 def check_oracle(R, case, res):
     """the property, evaluated on the implementation's observations only"""
     T = _imports()
@@ -913,11 +925,19 @@ def check_oracle(R, case, res):
             tainted = True
             R.count("oracle:not-applicable(entry failed or manual swap-back abandoned)")
             continue
+        if not td_within_structure(case["spec"], blocks[i]["target"], blocks[i]["p"]):
+            # the tensordict names something that is not a (non-None) parameter/buffer or sub-module of the target: not
+            # "same structure / subset". Entering usually raises; in the custom-__setattr__ path a None entry can be
+            # overwritten and the exit then raises. Compared with the model, not judged.
+            R.count("oracle:not-applicable(tensordict outside the module's structure)")
+            if not same_maps(B["before"], B["after"]) or value_diff(B["before"], B["after"]):
+                tainted = True
+            continue
         if blocks[i]["manual"]:
             # a hand-written swap-back (`swap.to_module(m, return_swap=False)`) is not a with-block: the property does
             # not speak about it; it is kept for the model correspondence only. What it leaves behind is the user's.
             R.count("oracle:not-applicable(manual swap-back)")
-            if not same_maps(B["before"], B["after"]):
+            if not same_maps(B["before"], B["after"]) or value_diff(B["before"], B["after"]):
                 tainted = True
             continue
         if first_fail is not None or tainted:
@@ -969,7 +989,7 @@ def check_oracle(R, case, res):
                 if y.shape != ref.shape or not torch.equal(y, ref):
                     sig = {"call": "to_module as context manager", "defect": "output-differs"}
                     act = actual_memo_slots(case)
-                    if act != slots and set(act.items()) <= set(slots.items()):
+                    if act != slots:  # the two differ only by the rule 'a module met again is skipped with its sub-tree'
                         # values supplied only under the second name of a shared sub-module (or below it): is the output
                         # the one computed without exactly those values?
                         try:
@@ -1713,7 +1733,7 @@ def run_vmap(R):
             if out.shape != ref.shape or not torch.equal(out, ref):
                 sig = {"call": "to_module as context manager", "defect": "output-differs"}
                 act = actual_memo_slots(case)
-                if act != slots and set(act.items()) <= set(slots.items()):
+                if act != slots:  # the two differ only by the rule 'a module met again is skipped with its sub-tree'
                     try:
                         refs2 = []
                         for i in range(case["batch"]):
@@ -1732,11 +1752,20 @@ def run_vmap(R):
 
 # ====================================================================== main / replay (streams B, C are appended below)
 def main(R):
-    R.rule = ("a case = (module DAG, nested to_module blocks, injection point); distinct by its JSON; non-trivial when the "
-              "blocks swap >= 2 slots")
+    R.rule = ("programs: a case = (module DAG, 1..3 nested to_module blocks with their options and parameter tensordicts, "
+              "injection point) — distinct by its JSON, non-trivial when the blocks swap >= 2 slots; every injection point of a "
+              "program (before / pre-hook and hook of every module / after / after an inner block) is a case of its own. "
+              "from_module: (tree, variant), non-trivial with >= 2 names. TensorDictParams: (initial tree, op list, spelling), "
+              "non-trivial with >= 1 op. vmap: (tree, batch, exception or not).")
     R.assumptions = ["module forward() does not rebind parameter/buffer slots (forward semantics trusted)",
-                     "exceptions are injected through forward (pre-)hooks and raise statements around module(x)"]
-    R.trusted = ["torch.func.functional_call as the reference for 'computes with the supplied values'"]
+                     "exceptions are injected by raise statements around module(x) and by forward pre-hooks / hooks",
+                     "module graphs are acyclic (a module is never its own descendant)",
+                     "object identity = Python object identity of the tensor bound under a name; storage identity = data_ptr",
+                     "the restore theorems cover plain blocks (no use_state_dict / inplace=True / swap_dest); those options are "
+                     "covered by the executable model + correspondence only"]
+    R.trusted = ["torch.func.functional_call (tie_weights=False, strict=False) as the reference for 'computes with the supplied values'",
+                 "torch.nn.Module.named_parameters/named_buffers(remove_duplicate=False) as the observation of the property",
+                 "harness/c13.py: generators, canonical renumbering of objects created by the code, the spec oracle"]
     R.step_prove()
     ok = R.step_driver()
     _imports()
@@ -1744,6 +1773,11 @@ def main(R):
     run_from_module(R, ok)
     run_tdparams(R, ok)
     run_vmap(R)
+    dom = {k: n for k, n in R.hist.items() if k.startswith("theorem-domain:")}
+    R.extra["theorem_domain"] = dom
+    R.extra["streams"] = {"programs(model+oracle)": R.hist.get("model:in-scope", 0),
+                          "restore-oracle-evaluations": sum(n for k, n in R.hist.items() if k.startswith("oracle:restore-checked")),
+                          "output-comparisons": R.hist.get("oracle:output-compared", 0) + R.hist.get("oracle:vmap-output-compared", 0)}
 
 
 def replay(body):
